@@ -11,6 +11,7 @@
 From Coq Require Import List NArith.
 From Minimq Require Import Bytes Varint Utf8 Props Ser De Reader Arena Core Machine.
 From Minimq Require Import Status Progress WireInv Wire Measure Wire Terminate Run.
+From Minimq Require Import Varint ArenaOps ConnectOk ReaderInv Framing FillWhole PollReads Liveness.
 Import ListNotations.
 Open Scope N_scope.
 
@@ -89,6 +90,62 @@ Theorem C16_terminate_example :
   snd (op_drive FUEL ex_resumed) = ODone None /\ work (s_ob (w_sess (fst (op_drive FUEL ex_resumed)))) = 0.
 Proof. exact terminate_example. Qed.
 
+(* ---------------- towards the broker: liveness of reading, and one exchange end to end ---------------- *)
+(* the packet reader on a behaving transport: when the bytes of a whole canonically framed packet that fits the receive
+   buffer have arrived, it assembles exactly that packet and stops with the packet available (any window sequence) *)
+Theorem C16_reader_completes_arrived_packet : forall h rl body, varint_write (lenN body) = Some rl ->
+  forall m fuel w k t,
+  at_k h rl body (rd w) k -> lenN (h :: rl ++ body) - k <= N.of_nat m -> (m + 2 <= fuel)%nat -> w_script w = [] ->
+  lenN (h :: rl ++ body) <= BIG ->
+  (k < lenN (h :: rl ++ body) -> w_inq w = [(t, dropN k (h :: rl ++ body))] /\ t <= w_now w) ->
+  (k = lenN (h :: rl ++ body) -> w_inq w = []) ->
+  exists w', fill_packet_reader fuel None w = (w', FillOk) /\
+    rdata (rd w') = h :: rl ++ body /\ rplen (rd w') = Some (lenN (h :: rl ++ body)) /\ rcap (rd w') = rcap (rd w) /\
+    w_sess w' = set_reader (w_sess w) (rd w') /\ w_inq w' = [] /\ w_script w' = [] /\ w_now w' = w_now w.
+Proof. exact fill_whole. Qed.
+
+(* poll() with nothing left to write, no PINGREQ due or outstanding, one whole packet arrived: it behaves like poll() on the world
+   in which that packet already sits complete in the reader *)
+Theorem C16_poll_reads_arrived_packet : forall f w h rl body t,
+  varint_write (lenN body) = Some rl ->
+  let pkt := h :: rl ++ body in
+  lenN pkt <= rcap (rd w) -> (N.to_nat (lenN pkt) + 2 <= f)%nat -> lenN pkt <= BIG ->
+  w_live w = true -> rdata (rd w) = [] -> rplen (rd w) = None ->
+  next_step (s_ob (w_sess w)) = None ->
+  (forall d, rt_next_ping (s_rt (w_sess w)) = Some d -> w_now w < d) -> rt_ping_timeout (s_rt (w_sess w)) = None ->
+  w_script w = [] -> w_inq w = [(t, pkt)] -> t <= w_now w ->
+  exists w3, wait_for_progress (S f) w = wait_for_progress f w3 /\
+    rdata (rd w3) = pkt /\ rplen (rd w3) = Some (lenN pkt) /\ rcap (rd w3) = rcap (rd w) /\
+    w_sess w3 = set_reader (w_sess w) (rd w3) /\ w_inq w3 = [] /\ w_script w3 = [] /\ w_now w3 = w_now w /\ w_live w3 = true.
+Proof. exact wait_reads_arrived_packet. Qed.
+
+(* a PUBACK that has arrived completes its QoS 1 publish in ONE poll(): read, decoded, the retained PUBLISH released
+   (every other retained packet untouched), the quota slot returned, progress reported, still nothing to write *)
+Theorem C16_poll_completes_puback : forall w pid t,
+  pid < 65536 -> 4 <= rcap (rd w) ->
+  w_live w = true -> rdata (rd w) = [] -> rplen (rd w) = None ->
+  arena_wf (s_ob (w_sess w)) -> next_step (s_ob (w_sess w)) = None ->
+  (forall d, rt_next_ping (s_rt (w_sess w)) = Some d -> w_now w < d) -> rt_ping_timeout (s_rt (w_sess w)) = None ->
+  w_script w = [] -> w_inq w = [(t, 64 :: [2] ++ u16_be pid)] -> t <= w_now w ->
+  has_retained (s_ob (w_sess w)) pid = true ->
+  exists w', op_poll FUEL w = (w', ODone None) /\ w_live w' = true /\ w_inq w' = [] /\
+    (exists l', abs_remove pid (abs (s_ob (w_sess w))) = Some l' /\ abs (s_ob (w_sess w')) = l') /\
+    ob_ctl (s_ob (w_sess w')) = ob_ctl (s_ob (w_sess w)) /\ ob_rel (s_ob (w_sess w')) = ob_rel (s_ob (w_sess w)) /\
+    rt_quota (s_rt (w_sess w')) = N.min (N.min (rt_quota (s_rt (w_sess w)) + 1) 65535) (rt_maxquota (s_rt (w_sess w))) /\
+    next_step (s_ob (w_sess w')) = None /\ packet_available (rd w') = false.
+Proof. exact poll_completes_puback. Qed.
+
+Theorem C16_puback_example :
+  w_live ex_inflight = true /\ rdata (rd ex_inflight) = [] /\ rplen (rd ex_inflight) = None /\
+  next_step (s_ob (w_sess ex_inflight)) = None /\
+  rt_next_ping (s_rt (w_sess ex_inflight)) = None /\ rt_ping_timeout (s_rt (w_sess ex_inflight)) = None /\
+  w_script ex_inflight = [] /\ w_inq ex_inflight = [(0, 64 :: [2] ++ [0; 1])] /\
+  has_retained (s_ob (w_sess ex_inflight)) 1 = true /\ rt_quota (s_rt (w_sess ex_inflight)) = 7 /\
+  snd (op_poll FUEL ex_inflight) = ODone None /\
+  ob_ret (s_ob (w_sess (fst (op_poll FUEL ex_inflight)))) = [] /\
+  rt_quota (s_rt (w_sess (fst (op_poll FUEL ex_inflight)))) = 8.
+Proof. exact puback_example. Qed.
+
 Print Assumptions C16_poll_never_returns_idle.
 Print Assumptions C16_sent_entries_not_resent.
 Print Assumptions C16_write_step_advances.
@@ -104,3 +161,7 @@ Print Assumptions C16_op_drive_terminates.
 Print Assumptions C16_terminate_example.
 Print Assumptions C16_measure_bounded.
 Print Assumptions C16_reachable_drive_terminates.
+Print Assumptions C16_reader_completes_arrived_packet.
+Print Assumptions C16_poll_reads_arrived_packet.
+Print Assumptions C16_poll_completes_puback.
+Print Assumptions C16_puback_example.
